@@ -15,13 +15,17 @@
   written here: they are the generated `QV.Gen.*` (tools/extract.py, tools/extract_codes.py),
   re-read from the Rust source on every run.
 
-  IMPORTANT (how `match Caseless(text) { Caseless("IN") => … }` behaves).  `Caseless("IN")` in
+  IMPORTANT (how `match Caseless(x) { Caseless("IN") => … }` behaves).  `Caseless("IN")` in
   pattern position is a tuple-struct *pattern* with a string-literal sub-pattern.  Rust matches it
   structurally: the field is compared with the literal octet-for-octet.  `PartialEq for Caseless`
-  (the case-insensitive comparison in src/util.rs) is never called by a `match`.  So the mnemonic
-  arms are case-SENSITIVE; only the RFC 3597 prefix test (`eq_ignore_ascii_case`) ignores case.
-  Confirmed on the real code: `"a".parse::<Type>()`, `"in".parse::<Class>()`,
-  `"any".parse::<Qtype>()` are all `Err("unknown …")`.  The model does what the code does.
+  (the case-insensitive comparison in src/util.rs) is never called by a `match`.  So the arms
+  compare exactly, and what makes the mnemonics case-insensitive is the normalisation of the
+  scrutinee: `let upper = text.to_ascii_uppercase(); match Caseless(&upper) { … }` (commit
+  41208a0; before it the scrutinee was `Caseless(text)` and `"a"`, `"in"`, `"any"` were rejected).
+  Whether that normalisation is present is *extracted* (`Gen.typeParseNormalise` … =
+  "to_ascii_uppercase" | "none") and the model follows it (`normaliseBy`), so reverting the fix
+  makes the model case-sensitive again and the theorems of C17 fail.  The RFC 3597 fallback arm
+  works on the original `text`.
 -/
 import QV.Prelude
 import QV.Generated.Tables
@@ -75,6 +79,14 @@ def dec (n : Nat) : Text :=
 termination_by n
 decreasing_by omega
 
+/-- `u8::to_ascii_uppercase` -/
+def upperU8 (b : UInt8) : UInt8 := if 97 ≤ b.toNat ∧ b.toNat ≤ 122 then b - 32 else b
+
+/-- the scrutinee of the mnemonic `match`: `text.to_ascii_uppercase()` (octet-wise; non-ASCII
+    octets are unchanged) if the source normalises, the text itself otherwise -/
+def normaliseBy (how : String) (t : Text) : Text :=
+  if how = "to_ascii_uppercase" then t.map upperU8 else t
+
 /-- `str::eq_ignore_ascii_case`: same length and octet-wise `to_ascii_lowercase` equal -/
 def eqIgnoreAsciiCase (a b : Text) : Bool :=
   a.length == b.length && (a.zip b).all (fun p => lowerU8 p.1 == lowerU8 p.2)
@@ -100,7 +112,7 @@ def sliceFrom (t : Text) (n : Nat) : Out ParseErr Text :=
 /-- table with octet keys -/
 def toBytesTable (tbl : List (String × Nat)) : List (Text × Nat) := tbl.map (fun r => (bytesOf r.1, r.2))
 
-/-- first arm whose literal equals `text` octet for octet (see the header comment) -/
+/-- first arm whose literal equals the scrutinee octet for octet (see the header comment) -/
 def lookupParse (tbl : List (Text × Nat)) (text : Text) : Option Nat :=
   match tbl with
   | [] => none
@@ -119,9 +131,9 @@ def generic (word : Text) (getEnd sliceStart : Nat) (text : Text) : Out ParseErr
   else .err .Unknown
 
 /-- a `FromStr` impl: mnemonic arms, then the fallback -/
-def parseWith (tbl : List (Text × Nat)) (word : Text) (getEnd sliceStart : Nat) (text : Text) :
-    Out ParseErr Nat :=
-  match lookupParse tbl text with
+def parseWith (tbl : List (Text × Nat)) (how : String) (word : Text) (getEnd sliceStart : Nat)
+    (text : Text) : Out ParseErr Nat :=
+  match lookupParse tbl (normaliseBy how text) with
   | some v => .ok v
   | none => generic word getEnd sliceStart text
 
@@ -134,22 +146,22 @@ def classWord : Text := bytesOf Gen.classParsePrefix
 
 /-- mirrors src/rr/rr_type.rs `impl FromStr for Type` -/
 def typeFromStr (text : Text) : Out ParseErr Nat :=
-  parseWith typeTable typeWord Gen.typeParseGetEnd Gen.typeParseSliceFrom text
+  parseWith typeTable Gen.typeParseNormalise typeWord Gen.typeParseGetEnd Gen.typeParseSliceFrom text
 
 /-- mirrors src/class.rs `impl FromStr for Class` -/
 def classFromStr (text : Text) : Out ParseErr Nat :=
-  parseWith classTable classWord Gen.classParseGetEnd Gen.classParseSliceFrom text
+  parseWith classTable Gen.classParseNormalise classWord Gen.classParseGetEnd Gen.classParseSliceFrom text
 
 /-- mirrors src/message/question.rs `impl FromStr for Qtype`
     (`_ => Type::from_str(text).map(Into::into)`; `Gen.qtypeParseDelegate = "Type"`) -/
 def qtypeFromStr (text : Text) : Out ParseErr Nat :=
-  match lookupParse qtypeTable text with
+  match lookupParse qtypeTable (normaliseBy Gen.qtypeParseNormalise text) with
   | some v => .ok v
   | none => typeFromStr text
 
 /-- mirrors src/message/question.rs `impl FromStr for Qclass` -/
 def qclassFromStr (text : Text) : Out ParseErr Nat :=
-  match lookupParse qclassTable text with
+  match lookupParse qclassTable (normaliseBy Gen.qclassParseNormalise text) with
   | some v => .ok v
   | none => classFromStr text
 
